@@ -12,17 +12,30 @@ def e1(n, **kw):
     return {"engine": "E1", "params": p, "cases": n}
 
 
+def e2(depth, nshards, **kw):
+    from .workloads.e2 import UNITS
+    p = {"depth": depth, "nshards": nshards}
+    p.update(kw)
+    return {"engine": "E2", "params": p, "cases": len(UNITS) * nshards, "shards": min(64, len(UNITS) * nshards)}
+
+
+def e5(n):
+    return {"engine": "E5", "params": {}, "cases": n}
+
+
 PLAN = {
-    "C01": {"quick": [e1(2400, profiles=["full_store", "mixed", "burst", "prio_storm"])],
-            "thorough": [e1(48000, profiles=["full_store", "mixed", "burst", "prio_storm"])]},
-    "C02": {"quick": [e1(2400, profiles=["hoarder", "mixed", "burst"])],
-            "thorough": [e1(48000, profiles=["hoarder", "mixed", "burst"])]},
-    "C04": {"quick": [e1(2400)], "thorough": [e1(48000)]},
-    "C05": {"quick": [e1(2400, profiles=["prio_storm", "full_store", "hoarder"])],
-            "thorough": [e1(40000, profiles=["prio_storm", "full_store", "hoarder"])]},
-    "C06": {"quick": [e1(2400, profiles=["hoarder", "mixed"])],
-            "thorough": [e1(48000, profiles=["hoarder", "mixed"])]},
-    "C07": {"quick": [e1(1600, illformed=0.08)], "thorough": [e1(30000, illformed=0.08)]},
+    "C01": {"quick": [e2(6, 2), e1(2400, profiles=["full_store", "mixed", "burst", "prio_storm"])],
+            "thorough": [e2(8, 8), e1(48000, profiles=["full_store", "mixed", "burst", "prio_storm"])]},
+    "C02": {"quick": [e2(6, 2), e1(2400, profiles=["hoarder", "mixed", "burst"])],
+            "thorough": [e2(8, 8), e1(48000, profiles=["hoarder", "mixed", "burst"])]},
+    "C04": {"quick": [e2(6, 2), e1(2400)], "thorough": [e2(8, 8), e1(48000)]},
+    "C05": {"quick": [e2(6, 2), e1(2400, profiles=["prio_storm", "full_store", "hoarder"]), {"engine": "E1p", "params": {}, "cases": 1600}],
+            "thorough": [e2(8, 8), e1(40000, profiles=["prio_storm", "full_store", "hoarder"]), {"engine": "E1p", "params": {}, "cases": 30000}]},
+    "C06": {"quick": [e2(6, 2), e1(2400, profiles=["hoarder", "mixed"])],
+            "thorough": [e2(8, 8), e1(48000, profiles=["hoarder", "mixed"])]},
+    "C07": {"quick": [e2(5, 2, illformed=True), e1(1600, illformed=0.08)],
+            "thorough": [e2(7, 8, illformed=True), e1(30000, illformed=0.08)]},
+    "C14": {"quick": [e5(1600), e1(800, kinds=["fleet"])], "thorough": [e5(24000), e1(8000, kinds=["fleet"])]},
 }
 
 RULES = {
@@ -34,6 +47,8 @@ RULES = {
            "(put, get, cancel of put, cancel of get, timer); distinct by operation-log hash",
     "C05": "E1 priority-storm histories; non-trivial = >=2 grants happened after waiting (so an order among waiting requests was decided); distinct by operation-log hash",
     "C06": "E1 hoarder histories; non-trivial = >=1 cancel of a granted retrieval and >=1 binding decided among >=2 candidate items; distinct by operation-log hash",
+    "C14": "E5: scripted loading/consumption on one Fleet (capacity 1-5, delay .5-3, transit 0-1.5, gaps aligned with trip boundaries) + E1 fleet histories; "
+           "non-trivial = >=3 batches, >=1 capacity departure, >=1 timer departure and >=1 load while a trip was under way; distinct by operation-log hash",
     "C07": "E1 histories with 8% ill-formed calls of 10 classes; non-trivial = an ill-formed call was issued while the store held >=1 item and >=1 other reservation was outstanding; distinct by operation-log hash",
 }
 
@@ -43,6 +58,8 @@ FLOORS = {
     "C04": {"quick": {"cases": 1000, "distinct_nontrivial": 300, "grants_after_wait": 3000}},
     "C05": {"quick": {"cases": 1000, "distinct_nontrivial": 300, "c05_grants_checked": 10000}},
     "C06": {"quick": {"cases": 1000, "distinct_nontrivial": 100, "c06_bindings_checked": 5000}},
+    "C14": {"quick": {"cases": 1000, "distinct_nontrivial": 200, "c14_batches": 5000, "c14_capacity_departures": 1000,
+                      "c14_timer_departures": 1000}},
     "C07": {"quick": {"cases": 800, "distinct_nontrivial": 200, "c07_illformed_calls": 2000}},
 }
 for _p, _d in FLOORS.items():
